@@ -24,7 +24,7 @@ MANIFEST = {
     "technique": "Rocq/Coq proof over hand-written model + correspondence check (extracted OCaml vs Rust harness)"
 }
 
-RULE = ("routes: 4 containers x 11 configuration routes (init, init then generate, init -v zod, init -o file then generate -c, generate -c, tauri.conf.json in three places, from_tauri_config, BuildSystem with tauri.conf.json / typegen.json) x the default_field_case written (absent / 4 values incl. an unknown one), real CLI binary in a sandbox; types: 17 field types x 3 rules x 4 attribute shapes; spellings: {struct, enum} x 9 container rules x 12 spellings of the container attributes (rename_all = .., rename_all(serialize = .., deserialize = ..) same / one-sided / different / either order, other keys before and after, split attributes) x unit / tuple / struct variants on multi-word identifiers; every stream: three white-space styles, variant shapes, rename(serialize = .., deserialize = ..); exhaustive: 9 container rules x {struct, enum} x every item-attribute shape of the generator (none, rename, skip, "
+RULE = ("histories: 12 edits of serde attributes (rename equal to the identifier under a rule, rename_all added / removed / changed / respelled, skip toggled, rename added / changed, fields and variants) as histories v1 v2 v1 of unforced runs into one output directory, CLI and build route, both modes, keys judged after every run; routes: 4 containers x 11 configuration routes (init, init then generate, init -v zod, init -o file then generate -c, generate -c, tauri.conf.json in three places, from_tauri_config, BuildSystem with tauri.conf.json / typegen.json) x the default_field_case written (absent / 4 values incl. an unknown one), real CLI binary in a sandbox; types: 17 field types x 3 rules x 4 attribute shapes; spellings: {struct, enum} x 9 container rules x 12 spellings of the container attributes (rename_all = .., rename_all(serialize = .., deserialize = ..) same / one-sided / different / either order, other keys before and after, split attributes) x unit / tuple / struct variants on multi-word identifiers; every stream: three white-space styles, variant shapes, rename(serialize = .., deserialize = ..); exhaustive: 9 container rules x {struct, enum} x every item-attribute shape of the generator (none, rename, skip, "
         "skip_serializing_if, default, default = s, pairs in both orders, split over two #[serde]) x 16 identifier shapes, one "
         "item per container (quick: every third (shape, identifier) pair per rule; thorough: all); random: containers of 1-5 items with 0-3 attributes each over a value alphabet containing skip / "
         "rename / quotes / backslashes / non-ASCII; malformed: out-of-domain attribute text (correspondence only); real-serde: the "
@@ -258,6 +258,51 @@ def evaluate_routes(cases):
     return outs
 
 
+def evaluate_histories(hists):
+    """multi-run histories (c06_routes.run_history): after EVERY unforced run the keys / literals on disk must be
+    what serde writes for the CURRENT source; the model says the same (any edit of a serde attribute reaches
+    the cache hash, so the file is rewritten; an unchanged source leaves a correct file in place)."""
+    if not hists:
+        return []
+    runs = vlib.pmap(routes.run_history, hists)
+    key_req, key_idx = [], []
+    for i, steps in enumerate(runs):
+        for j, st in enumerate(steps):
+            if isinstance(st.get("types"), str):
+                key_req.append(sx(["T0", st["types"]]))
+                key_idx.append((i, j))
+    key_res = dict(zip(key_idx, vlib.run_runner("c06-keys", key_req)))
+    req, idx, names_all = [], [], {}
+    for i, (h, steps) in enumerate(zip(hists, runs)):
+        for j, (v, st) in enumerate(zip(h["versions"], steps)):
+            names = None
+            if isinstance(st.get("types"), str):
+                names, _ = read_ts(v["kind"], h["mode"], st["types"], key_res.get((i, j)))
+            names_all[(i, j)] = names
+            req.append(sx([h.get("dfc", "snake_case"), container_sx(v), [names if names is not None else ["<unreadable>"]]]))
+            idx.append((i, j))
+    res = dict(zip(idx, vlib.run_runner("c06-eval", req)))
+    outs = []
+    for i, (h, steps) in enumerate(zip(hists, runs)):
+        corr = ok = True
+        kf = None
+        trace = []
+        for j, (v, st) in enumerate(zip(h["versions"], steps)):
+            m = res[(i, j)]
+            if m and m[0] == "runner-error":
+                raise vlib.BuildError("runner: %s" % m)
+            model, _dom, classes, spec, oks, _a, _b = m
+            names = names_all[(i, j)]
+            corr &= names is not None and names == list(model[1])
+            ok &= names is not None and oks[0] == "true"
+            kf = kf or next((kid for kid, flag in zip(KF_IDS, classes) if flag == "true"), None)
+            trace.append({"run": j + 1, "keys_on_disk": names, "model": list(model[1]), "serde": list(spec), "tool_said": st.get("said"),
+                          "error": st.get("error"), "rust": gen.rust_source(v)})
+        case = {k: h[k] for k in ("versions", "route", "mode", "dfc") if k in h}
+        outs.append(Outcome(case, corr, ok, kf, {"history": trace}, True))
+    return outs
+
+
 def corpus_cases():
     cases = []
     for e in vlib.load_known_findings("C06"):
@@ -328,6 +373,11 @@ def run_streams(rep):
         ("malformed", gen.malformed_cases(rng, 5000 if thorough else 500)),
     ]
     for name, cases in streams:
+        hist = [c for c in cases if "versions" in c]
+        if hist:                            # corpus entries that are multi-run histories
+            vlib.build_repo_bin()
+            rep.add(name, evaluate_histories(hist))
+            cases = [c for c in cases if "versions" not in c]
         route_cases = [c for c in cases if "route" in c]
         if route_cases:                     # corpus entries that name a configuration route
             vlib.build_repo_bin()
@@ -338,6 +388,7 @@ def run_streams(rep):
         rep.add(name, outs)
     vlib.build_repo_bin()
     rep.add("routes", evaluate_routes(routes.route_cases(thorough)))
+    rep.add("histories", evaluate_histories(routes.history_cases(thorough)))
     rep.add("real-serde", real_serde_outcomes())
 
 
@@ -347,6 +398,10 @@ def replay(rep, payload):
     items = payload.get("disagreeing_cases") or [payload]
     with RunSandbox():
         for it in items:
+            if "versions" in it["case"]:
+                vlib.build_repo_bin()
+                rep.add("histories", evaluate_histories([it["case"]]))
+                continue
             if "route" in it["case"]:
                 vlib.build_repo_bin()
                 rep.add("routes", evaluate_routes([it["case"]]))
